@@ -147,7 +147,13 @@ def _read_raises_oserror(a):
     return a._st.nd_bool("os.read.EIO")
 
 
-_ext("os.read", ["fd", "n"], result=lambda a, st: Sym("bytes", fresh("data", T.SI)),
+def _read_effect(a, st, res):
+    # what the stream has delivered so far in this run (ghost): the byte-accounting contracts of the buffer speak about it
+    if isinstance(res, Sym) and res.tag == "bytes":
+        st.ghost["os.delivered"] = z3.Concat(st.ghost["os.delivered"], res.t) if "os.delivered" in st.ghost else res.t
+
+
+_ext("os.read", ["fd", "n"], result=lambda a, st: Sym("bytes", fresh("data", T.SI)), effect=_read_effect,
      raises={"BlockingIOError": _read_raises_blocking, "OSError": _read_raises_oserror},
      doc="returns bytes, or raises BlockingIOError / another OSError (nondeterministically)")
 _ext("input.is_main_thread", [], result=lambda a, st: mk_bool(st.ghost["os.main_thread"]), doc="whether the caller is the main thread")
